@@ -183,9 +183,16 @@ def inject_raw(ctx, obj, rng):
         elif isinstance(v, decimal.Decimal) and type(t) is T.Decimal and t.scale is None and rng.random() < 0.15:
             digits = rng.randrange(10 ** 28, 10 ** rng.randint(29, 31))
             obj.__dict__[k] = decimal.Decimal((rng.randint(0, 1), tuple(int(c) for c in str(digits)), -rng.randint(0, 6)))
-    for m in obj:
+    le = [t for k, t in type(obj).spec.items() if isinstance(t, T.ListElement)]
+    for n, m in enumerate(obj):
         if isinstance(m, ctx.Aggregate):
             inject_raw(ctx, m, rng)
+        elif isinstance(m, str) and le and type(le[0].converter) in (T.String, T.NagString) and rng.random() < 0.6:
+            # repeated character-data elements: entity-looking text in the HELD value (the document escapes its '&' once more), Unicode edge text
+            ent = rng.choice(["R&amp;D", "5 &lt; 6", "x&nbsp;y", "&quot;q&quot;", "&amp;amp;", "a&apos;b"] + H.EDGE_TEXT)
+            n_max = le[0].converter.length or 40
+            if len(ent) <= n_max:
+                list.__setitem__(obj, n, ent)
 
 
 def to_text(e, sgml, rng):
